@@ -202,6 +202,53 @@ def seed_rules(an: Analysis, rep):
 
 
 
+def unreferenced_rules(an: Analysis, rep):
+    """Entries no instruction references: listed for exactly the never-met indices, each ranked by the rank function (so that it gets an
+    override exactly when its position is not its rank - otherwise the encoder puts it somewhere else)."""
+    f, ifst, assign, mapattr, idx = find_rank_site(an)
+    # the never-met generator yields the rank function's result and nothing else
+    for m in f.cls.methods.values():
+        if m is f:
+            continue
+        for n in ast.walk(m.node):
+            if isinstance(n, ast.Yield) and n.value is not None:
+                ok6 = _is_rank_call(n.value, f.name)
+                rep.add("R09.5", f"{m.qual}::yields the rank function's result", ok6, loc(m.module, n),
+                        "unreferenced entries are ranked like referenced ones" if ok6 else
+                        f"`yield {norm_src(n.value)}`: unreferenced entries get an override by another rule than the rank function's: an unreferenced entry at its rank is listed with a removable override")
+
+    # R09.3 additional args
+    gen = None
+    for m in f.cls.methods.values():
+        if m is f:
+            continue
+        if any(isinstance(n, (ast.Yield, ast.YieldFrom)) for n in ast.walk(m.node)):
+            gen = m
+    if gen is None:
+        raise AnalysisError(f"{f.cls.qual}: generator of never-met indices not found")
+    s2 = gen.params[0]
+    loops = [n for n in ast.walk(gen.node) if isinstance(n, ast.For)]
+    ok_range = False
+    ok_guard = False
+    for lp in loops:
+        itx = lp.iter
+        if (isinstance(itx, ast.Call) and isinstance(itx.func, ast.Name) and itx.func.id == "range" and len(itx.args) == 1
+                and isinstance(itx.args[0], ast.Call) and isinstance(itx.args[0].func, ast.Name) and itx.args[0].func.id == "len"):
+            a0 = itx.args[0].args[0]
+            if (isinstance(a0, ast.Attribute) and a0.attr != mapattr) or (isinstance(a0, ast.Name) and a0.id == s2):
+                ok_range = True
+        for n in ast.walk(lp):
+            if isinstance(n, ast.If) and isinstance(n.test, ast.Compare) and isinstance(n.test.ops[0], ast.NotIn):
+                c = n.test.comparators[0]
+                if isinstance(c, ast.Attribute) and c.attr == mapattr and isinstance(lp.target, ast.Name) and isinstance(n.test.left, ast.Name) and n.test.left.id == lp.target.id:
+                    if any(isinstance(y, (ast.Yield, ast.YieldFrom)) for b in n.body for y in ast.walk(b)) and not n.orelse:
+                        ok_guard = True
+    rep.add("R09.3", f"{gen.qual}::ranges over every index of the table", ok_range, loc(gen.module, gen.node),
+            "for i in range(len(table))" if ok_range else "does not range over every index of the table")
+    rep.add("R09.3", f"{gen.qual}::yields exactly the never-met indices", ok_guard, loc(gen.module, gen.node),
+            f"yields i only under `i not in self.{mapattr}`, nothing otherwise" if ok_guard else "the yield is not guarded by 'index never met'")
+
+
 def run(an: Analysis, rep):
     rep.explanation = (
         "Decides that the decoder's first-use rank is a function of discovery state (the number of distinct indices met so far - the "
@@ -348,47 +395,7 @@ def run(an: Analysis, rep):
                     n55 += 1
                     rep.add("R09.5", f"{g2.qual}::replace(..., _index_override=...)", False, loc(g2.module, n),
                             f"`{norm_src(n)}` sets a position override after the rank function has decided that none is needed: the decoded data carries redundant overrides")
-    # the never-met generator yields the rank function's result and nothing else
-    for m in f.cls.methods.values():
-        if m is f:
-            continue
-        for n in ast.walk(m.node):
-            if isinstance(n, ast.Yield) and n.value is not None:
-                ok6 = _is_rank_call(n.value, f.name)
-                rep.add("R09.5", f"{m.qual}::yields the rank function's result", ok6, loc(m.module, n),
-                        "unreferenced entries are ranked like referenced ones" if ok6 else
-                        f"`yield {norm_src(n.value)}`: unreferenced entries get an override by another rule than the rank function's: an unreferenced entry at its rank is listed with a removable override")
-
-    # R09.3 additional args
-    gen = None
-    for m in f.cls.methods.values():
-        if m is f:
-            continue
-        if any(isinstance(n, (ast.Yield, ast.YieldFrom)) for n in ast.walk(m.node)):
-            gen = m
-    if gen is None:
-        raise AnalysisError(f"{f.cls.qual}: generator of never-met indices not found")
-    s2 = gen.params[0]
-    loops = [n for n in ast.walk(gen.node) if isinstance(n, ast.For)]
-    ok_range = False
-    ok_guard = False
-    for lp in loops:
-        itx = lp.iter
-        if (isinstance(itx, ast.Call) and isinstance(itx.func, ast.Name) and itx.func.id == "range" and len(itx.args) == 1
-                and isinstance(itx.args[0], ast.Call) and isinstance(itx.args[0].func, ast.Name) and itx.args[0].func.id == "len"):
-            a0 = itx.args[0].args[0]
-            if (isinstance(a0, ast.Attribute) and a0.attr != mapattr) or (isinstance(a0, ast.Name) and a0.id == s2):
-                ok_range = True
-        for n in ast.walk(lp):
-            if isinstance(n, ast.If) and isinstance(n.test, ast.Compare) and isinstance(n.test.ops[0], ast.NotIn):
-                c = n.test.comparators[0]
-                if isinstance(c, ast.Attribute) and c.attr == mapattr and isinstance(lp.target, ast.Name) and isinstance(n.test.left, ast.Name) and n.test.left.id == lp.target.id:
-                    if any(isinstance(y, (ast.Yield, ast.YieldFrom)) for b in n.body for y in ast.walk(b)) and not n.orelse:
-                        ok_guard = True
-    rep.add("R09.3", f"{gen.qual}::ranges over every index of the table", ok_range, loc(gen.module, gen.node),
-            "for i in range(len(table))" if ok_range else "does not range over every index of the table")
-    rep.add("R09.3", f"{gen.qual}::yields exactly the never-met indices", ok_guard, loc(gen.module, gen.node),
-            f"yields i only under `i not in self.{mapattr}`, nothing otherwise" if ok_guard else "the yield is not guarded by 'index never met'")
+    rep.run(unreferenced_rules, an, rep)
     # R09.4: each member of the AdditionalArg union is produced from the same table as the instruction operand of that class
     tg = an.tg
     cd = an.prog.cls("code_data::CodeData")
